@@ -12,7 +12,7 @@ use crate::spec::{Item, PP};
 pub static DEF: PropDef = PropDef {
     id: "C03",
     level: "exploration",
-    rule: "each case: one input (valid / truncated / mutated / adversarial / random / mid-document) x random configuration (8 tolerance subsets, buffered subsets, capacities that force buffer compaction, size limits) x scripted short-read source (a fifth of the unmutated cases with end-of-stream closing disabled and temporary EOFs at random tag boundaries). Every Ok item before the first error is checked against the input bytes with the independent reference decoder: the id decoded at the reported offset equals the item's id; the value equals the documented decoding of the payload that follows the header (big-endian unsigned, sign-extended signed, IEEE-754 4/8-byte float, UTF-8, raw bytes for ids outside the specification); the next non-End item starts exactly at header end (masters) or payload end (other elements); an End reports the offset of its matching Start (0 for implied ancestors of a mid-document start); a buffered Full reports the master's start offset, its flattened children are checked against an unbuffered parse of the same bytes, and tiling resumes after the master. distinct = (input kind, config class, structural shape hash); non-trivial iff >= 3 items were checked and the source needed >= 2 reads (buffer offset moved).",
+    rule: "each case: one input (valid / truncated / mutated / adversarial / random / mid-document) x random configuration (8 tolerance subsets, buffered subsets, capacities that force buffer compaction, size limits) x scripted short-read source (a fifth of the unmutated cases with end-of-stream closing disabled and temporary EOFs at random tag boundaries). Every Ok item before the first error is checked against the input bytes with the independent reference decoder: the id decoded at the reported offset equals the item's id; the value equals the documented decoding of the payload that follows the header (big-endian unsigned, sign-extended signed, IEEE-754 4/8-byte float, UTF-8, raw bytes for ids outside the specification); the next non-End item starts exactly at header end (masters) or payload end (other elements); an End reports the offset of its matching Start (0 for implied ancestors of a mid-document start); a buffered Full reports the master's start offset, its flattened children are checked against an unbuffered parse of the same bytes, and tiling resumes after the master. Case 0 of every run: a generated stream longer than 2^32 bytes (a known-size Segment > Cluster with about 4100 Blocks of 1 MiB, then elements behind them; nothing is held in memory) — every item's id, offset (beyond 2^32), payload and the Ends of the > 4 GiB masters are compared with the arithmetic layout. distinct = (input kind, config class, structural shape hash); non-trivial iff >= 3 items were checked and the source needed >= 2 reads (buffer offset moved).",
     assumptions: &["reference decoders in refcodec.rs", "items after the first error are not judged", "when the buffered and unbuffered parses disagree structurally (C08's subject) the Full-offset clause is skipped for that case (counted)"],
     cases_quick: 1_000_000,
     cases_thorough: 10_000_000,
@@ -26,6 +26,10 @@ fn cfg_class(cfg: &RCfg) -> String {
 }
 
 fn run(c: &mut Case) {
+    if c.idx == 0 {
+        super::huge::run_huge_read(c);
+        return;
+    }
     let inp = gen_input(&mut c.rng, c.tier, &Mix::ALL);
     inp.spec.install();
     let mut cfg = random_cfg(&mut c.rng, &inp);
